@@ -15,3 +15,13 @@ harnesses! {
         std::mem::forget(t);
     }
 }
+
+pub mod bisect {
+    use crate::sym;
+    harnesses! {
+        fn b_stdout() { let o = std::io::stdout(); std::mem::forget(o); }
+        fn b_console_writer() { let w = log4rs::encode::writer::console::ConsoleWriter::stdout(); std::mem::forget(w); }
+        #[kani::stub(std::env::var, crate::world::env::stub_var)]
+        fn b_console_writer_envstub() { let w = log4rs::encode::writer::console::ConsoleWriter::stdout(); std::mem::forget(w); }
+    }
+}
